@@ -414,7 +414,9 @@ def run(ctx):
         for op in calls:
             if not op.get("parse_fault"):
                 distinct.setdefault(_key(op), op)
-    items = sorted(distinct.items())
+    # references needed by the pattern histories first
+    pat_keys = {_key(op) for h, calls in hist if h >= 1000000 for op in calls if not op.get("parse_fault")}
+    items = sorted(distinct.items(), key=lambda kv: (kv[0] not in pat_keys, kv[0]))
     chunk = 10
     ad = ctx.map("task_alone", [{"ops": items[i:i + chunk]} for i in range(0, len(items), chunk)], budget_s=ctx.budget_s * 0.35)
     amap = {}
@@ -424,7 +426,7 @@ def run(ctx):
     tasks = []
     # histories whose references are all known first; the others compute the missing references
     # themselves (a slow machine shrinks the exploration, it does not empty it)
-    hist.sort(key=lambda hc: sum(1 for op in hc[1] if not op.get("parse_fault") and _key(op) not in amap))
+    hist.sort(key=lambda hc: (hc[0] < 1000000, sum(1 for op in hc[1] if not op.get("parse_fault") and _key(op) not in amap)))
     for i in range(0, len(hist), size):
         part = hist[i:i + size]
         keys = {_key(op) for _h, calls in part for op in calls}
